@@ -133,9 +133,16 @@ PortStrs == { <<sch, "sl", "sl">> \o h \o p \o t :
                 h \in {<<"good">>, <<"evil">>, <<"evil", "at", "good">>, <<"good", "at", "evil">>, <<"seg", "dot", "good">>, <<"v6">>, <<"v6map">>, <<"good", "at", "v6">>},
                 p \in {<<>>, <<"col">>, <<"col", "p80">>, <<"col", "p443">>, <<"col", "port">>, <<"col", "p80", "col", "p443">>, <<"col", "p443", "at", "good">>},
                 t \in {<<>>, <<"sl">>, <<"sl", "seg">>, <<"q", "seg">>, <<"h">>, <<"bs", "evil">>} }
-\* (the grammar strings are enumerated as functions 1..n -> Tokens: TLC steps through that set without building it)
-Init == \/ \E n \in 1..MaxLen : \E s \in [1..n -> Tokens], wl \in WLs : c = [s |-> s, wl |-> wl]
-        \/ \E s \in PortStrs, wl \in WLs : c = [s |-> s, wl |-> wl]
+\* (the grammar strings are enumerated position by position: TLC refuses to build sets of more than 10^6 elements)
+T == Tokens
+Init == \E wl \in WLs :
+        \/ \E s \in PortStrs : c = [s |-> s, wl |-> wl]
+        \/ MaxLen >= 1 /\ \E a \in T : c = [s |-> <<a>>, wl |-> wl]
+        \/ MaxLen >= 2 /\ \E a \in T, b \in T : c = [s |-> <<a, b>>, wl |-> wl]
+        \/ MaxLen >= 3 /\ \E a \in T, b \in T, d \in T : c = [s |-> <<a, b, d>>, wl |-> wl]
+        \/ MaxLen >= 4 /\ \E a \in T, b \in T, d \in T, e \in T : c = [s |-> <<a, b, d, e>>, wl |-> wl]
+        \/ MaxLen >= 5 /\ \E a \in T, b \in T, d \in T, e \in T, f \in T : c = [s |-> <<a, b, d, e, f>>, wl |-> wl]
+        \/ MaxLen >= 6 /\ \E a \in T, b \in T, d \in T, e \in T, f \in T, g \in T : c = [s |-> <<a, b, d, e, f, g>>, wl |-> wl]
 Next == UNCHANGED c
 C06_NoOpenRedirect == Impl_Valid(c.s, c.wl) => Safe(BrowserResolve(c.s), c.wl)
 
